@@ -51,6 +51,7 @@ func main() {
 	ninst := flag.Int("n", 6, "behave: instances per trigger shape")
 	only := flag.String("only", "", "behave: only this shape / corpus: only testdata dirs containing this string")
 	vfrac := flag.Int("vfrac", 35, "corpus: percent of the fix-offering checks' testdata dirs taken per variant kind")
+	vers := flag.String("vers", "", "corpus: only testdata of this Go version directory (e.g. go1.0), or all but it with a leading !")
 	keep := flag.Bool("keep", false, "keep generated sources in the output (for replay)")
 	flag.Parse()
 	if *work == "" || *outp == "" {
@@ -62,7 +63,7 @@ func main() {
 	rnd := hx.NewRand(*seed)
 	switch *mode {
 	case "corpus":
-		runCorpus(*repo, *work, rnd, *variants, *repopkgs, *only, *vfrac)
+		runCorpus(*repo, *work, rnd, *variants, *repopkgs, *only, *vfrac, *vers)
 	case "behave":
 		runBehave(*work, rnd, *ninst, *only, *keep)
 	default:
